@@ -4,6 +4,11 @@ RANGE-0  "for every" means every: no loop (or comprehension) of an analysed func
          (`xs[:1]`, `list(xs)[1:]`, `islice(xs, n)`): the rules of a property speak about every handler / ball / entry / mode, and a
          loop that visits only part of the collection narrows that quantifier without touching any of the statements the rules
          look at.  Legitimate partial iterations are tabled below with their reason (none in the analysed functions today).
+
+TRUTHY-0 an index is never tested by truthiness: a variable bound as the index of `enumerate(...)` / `range(...)` (directly or through a
+         list built from enumerate) that is used as a bare condition (`if not step:`) treats the valid index 0 as "nothing".
+NAME-0   delay names agree: a delay name (string constant) that a class cancels, checks or runs now is a name the class arms
+         somewhere (its own methods or inherited ones).  A cancel under a name nobody arms cancels nothing.
 """
 import ast
 
@@ -62,3 +67,125 @@ def whole_collection_loops(chk):
                    construct=ident, text="partial iteration " + src(it)[:80])
     chk.ob("RANGE-0", "loops of the analysed functions range over whole collections (%d loops in %d functions)" % (n, len(chk.funcs_analysed)), True,
            "mpf:1", nontrivial=False)
+
+
+_POS_TRUTHY = """
+def f(self, xs):
+    pick = None
+    for pick, state in list(enumerate(xs)):
+        if not state:
+            break
+    if not pick:
+        return
+    self.hit(pick)
+"""
+
+
+def _index_names(fn):
+    out = set()
+    for n in ast.walk(fn):
+        if not isinstance(n, (ast.For, ast.AsyncFor, ast.comprehension)):
+            continue
+        it, tg = n.iter, n.target
+        first = tg.elts[0] if isinstance(tg, ast.Tuple) and tg.elts and isinstance(tg.elts[0], ast.Name) else None
+        if isinstance(it, ast.Call) and isinstance(it.func, ast.Name):
+            if first is not None and (it.func.id == "enumerate" or (it.func.id in ("list", "tuple", "reversed", "sorted") and it.args and
+                                                                     isinstance(it.args[0], ast.Call) and src(it.args[0].func) == "enumerate")):
+                out.add(first.id)
+            if it.func.id == "range" and isinstance(tg, ast.Name):
+                out.add(tg.id)
+        if isinstance(it, ast.Name) and first is not None:
+            for a in ast.walk(fn):
+                if isinstance(a, ast.Assign) and len(a.targets) == 1 and src(a.targets[0]) == it.id and "enumerate(" in src(a.value):
+                    out.add(first.id)
+    return out
+
+
+def _truth_atoms(t):
+    if isinstance(t, ast.BoolOp):
+        for v in t.values:
+            for a in _truth_atoms(v):
+                yield a
+    elif isinstance(t, ast.UnaryOp) and isinstance(t.op, ast.Not):
+        for a in _truth_atoms(t.operand):
+            yield a
+    else:
+        yield t
+
+
+def _index_truth_tests(fn):
+    names = _index_names(fn)
+    out = []
+    if not names:
+        return out
+    for n in ast.walk(fn):
+        if isinstance(n, (ast.If, ast.While, ast.IfExp, ast.Assert)):
+            for a in _truth_atoms(n.test):
+                if isinstance(a, ast.Name) and a.id in names:
+                    out.append((n, a.id))
+    return out
+
+
+def index_truthiness(chk):
+    pos = ast.parse(_POS_TRUTHY).body[0]
+    if len(_index_truth_tests(pos)) != 1:
+        chk.pending_errors.append("TRUTHY-0 detector does not match its positive example")
+    n = 0
+    for ident in sorted(chk.funcs_analysed):
+        rel, qual = ident.split("::", 1)
+        f = chk.repo.try_func(rel, qual)
+        if f is None:
+            continue
+        n += 1
+        for node, name in _index_truth_tests(f.node):
+            chk.ob("TRUTHY-0", "an index is compared with None, never tested by truthiness (0 is a valid index)", False, "%s:%d" % (rel, node.lineno),
+                   detail="`%s` is an enumerate / range index and is used as a bare condition in `%s`: the first item is treated as absent" % (
+                       name, src(node.test)[:60]), construct=ident, text="index %s tested by truthiness" % name)
+    chk.ob("TRUTHY-0", "no index variable of the analysed functions is tested by truthiness (%d functions)" % n, True, "mpf:1", nontrivial=False)
+
+
+_ARM = {"add", "reset", "add_if_doesnt_exist"}
+_USE = {"remove", "check", "run_now"}
+
+
+def _delay_name(c):
+    from sa.model import kwarg, call_attr
+    n = kwarg(c, "name")
+    if n is None:
+        if call_attr(c) in _USE and c.args:
+            n = c.args[0]
+        elif call_attr(c) in _ARM and len(c.args) >= 3:
+            n = c.args[2]
+    return n
+
+
+def delay_names(chk):
+    from sa.model import call_attr
+    repo = chk.repo
+    classes = {}
+    for ident in chk.funcs_analysed:
+        rel, qual = ident.split("::", 1)
+        if "." in qual:
+            classes.setdefault((rel, qual.split(".")[0]), None)
+    n = 0
+    for rel, cn in sorted(classes):
+        try:
+            cls = repo.cls(rel, cn)
+        except Exception:   # noqa
+            continue
+        arm, use = {}, {}
+        for k in repo.mro(cls):
+            for m in k.methods.values():
+                for c in ast.walk(m.node):
+                    if isinstance(c, ast.Call) and isinstance(c.func, ast.Attribute) and "delay" in src(c.func.value).lower() and call_attr(c) in _ARM | _USE:
+                        nm = _delay_name(c)
+                        if isinstance(nm, ast.Constant) and isinstance(nm.value, str):
+                            (arm if call_attr(c) in _ARM else use).setdefault(nm.value, []).append((m, c))
+        for name, sites in sorted(use.items()):
+            n += 1
+            m, c = sites[0]
+            if name not in arm:
+                chk.ob("NAME-0", "a delay a class cancels / checks / runs is one it arms under the same name", False, m.where(c),
+                       detail="%s uses delay name %r (%s) but arms only %s" % (cn, name, ", ".join(sorted({x.name for x, _ in sites})), sorted(arm)),
+                       construct=m.ident, text="delay name %s used but never armed in %s" % (name, cn))
+    chk.ob("NAME-0", "delay names used by the analysed classes are names those classes arm (%d names)" % n, True, "mpf:1", nontrivial=False)
